@@ -69,4 +69,4 @@ def fuzz_part(prop_id: str, oracles, nontrivial):
         finally:
             shutil.rmtree(d, ignore_errors=True)
 
-    return {"shard": shard, "replay": make_check(oracles, nontrivial), "budget": {"quick": 0, "thorough": 1600000}}
+    return {"shard": shard, "replay": make_check(oracles, nontrivial), "budget": {"quick": 0, "thorough": 800000}}
